@@ -10,7 +10,7 @@ import random
 from lib import gram
 
 ID = 'C16'
-TECHNIQUE = 'runtime monitor: exception-class oracle per failure category (by construction), swallowed-failure monitor (M1 on_raise), crash/exit-status watch'
+TECHNIQUE = 'runtime monitor: exception-class oracle per failure category (by construction), swallowed-failure monitor (M1 on_raise), crash/exit-status watch; coverage-guided texts (atheris) under the arbitrary-text oracle'
 RULE = '(a) programs built to fail in exactly one listed way: a fault (undefined variable, undefined function in call/method/pipe spelling, missing key/index read, pop of an empty list, element-adding mutator at the 10000 cap, compound assignment to an undefined name or missing key/index, op budget) in every evaluated position of nested expression/statement contexts (top level, after/before other lines, lambda bodies driven by map/filter/reduce/sorted and host callbacks, ast_names bodies), one eval in five preceded by poisoning calls that bound exactly the names the fault leaves undefined and then failed; a faulting lambda in every argument position of every builtin under the swallowed-failure monitor; the op budget on small programs and on deep/long programs (150-900 levels) on plain and caching parsers; lexical errors (illegal characters incl. unnamed code points and lone surrogates, unterminated strings, lone CR) spliced into valid programs at every token gap; syntax errors by truncation at every token boundary, bracket removal and stray tokens; reserved words at every atom position. (b) arbitrary text (random Unicode from all planes, latin-1 byte salad, splices and mutants of programs, 10^5-char lines, 10^4-deep nesting), judged with the reference lexer/parser where they say the text is invalid, through parse, list_names and eval. Non-trivial = the call raised and its class was judged; distinct = distinct (entry point, source text).'
 RULE += ' Names mappings of the failing programs include defaultdict / __missing__ mappings (a name the mapping does not contain is undefined); every broken text is also parsed twice on a parser with a parse cache.'
 RULE += ' Statement contexts include a lambda failure swallowed by a host callback before the fault (the lambda parameters carry the names the fault leaves undefined); host containers include ChainMap, UserDict, MappingProxyType, OrderedDict, tuple, range, bytes, deque.'
